@@ -924,6 +924,11 @@ def log_combos():
 LOG_SELS = ["default", "strict-bad", "config+disable+set"]     # diagnostics must be inert under every selection, incl. one strict mode rejects
 
 
+# a document full of the characters the logging layers give a meaning to: ParserLogger's `$` place-holder, the standard library's
+# %-style and {}-style formats (a log call that interpolates document text into its FORMAT string fails only at a verbose level)
+FMT_DOC = "# Cost $1\n\nTotal: $5, 100% {sure} %s %d %(x)s {0} $ $$ today. \n\n* a $\n+ b %\n"
+
+
 def _log_worker(task):
     doc, combo, mode, sel_name = task
     lvl, st, lf = combo
@@ -966,7 +971,7 @@ def _log_worker(task):
 
 
 def log_stage(ctx):
-    docs = ["# T\n\nText.\n", "Intro \n\n\n#T\n\ttab\n* a\n+ b\n", "# T\r\n\r\né text \r\n", "<!-- pyml bogus md041-->\ntext", "# T\n\n1. a\n1. b\n3. c\n"]
+    docs = ["# T\n\nText.\n", "Intro \n\n\n#T\n\ttab\n* a\n+ b\n", "# T\r\n\r\né text \r\n", "<!-- pyml bogus md041-->\ntext", "# T\n\n1. a\n1. b\n3. c\n", FMT_DOC]
     modes = ["scan", "stdin", "fix", "api_scan", "api_fix"]
     combos = list(log_combos())
     tasks = [(d, c, m, "default") for d in docs for m in modes for c in combos]
@@ -978,6 +983,7 @@ def log_stage(ctx):
         # every (mode, selection) with the stack trace alone is always included: the one diagnostic switch that is assembled
         # next to the non-diagnostic ones in the API
         fixed = [t for t in rest if t[1] == (None, True, False) and t[0] == docs[1]]
+        fixed += [t for t in rest if t[0] == FMT_DOC and t[1][0] in ("DEBUG", "INFO") and not t[1][1] and not t[1][2] and t[3] == "default"]
         tasks = base + fixed + ctx.rng.sample([t for t in rest if t not in fixed], 250)
     with multiprocessing.Pool(16) as pool:
         res = pool.map(_log_worker, tasks, chunksize=4)
